@@ -412,6 +412,17 @@ def wellFormedFill (buf : Nat) (image : List Nat) (appId flags : Nat) : List Pkt
     decide (tail = [.ffe pid appId flags])
   | _ => false
 
+/-- the fill the theorem `fill_wellformed` describes, rebuilt from the id, the core selections and
+the base address found in the packets themselves: the packets must be exactly `fillPkts` of these -/
+def isFillPkts (buf : Nat) (image : List Nat) (appId flags : Nat) (pkts : List Pkt) : Bool :=
+  match pkts with
+  | .ffs pid _ :: rest =>
+    let regs := rest.filterMap fun p => match p with | .ffcs r m => some (r, m) | _ => none
+    let base := (rest.filterMap fun p => match p with | .ffd _ _ _ a _ => some a | _ => none).headD 0
+    decide (pkts = fillPkts buf pid base appId flags regs image) &&
+      decide (pid % 2 = 0 ∧ 2 ≤ pid ∧ pid ≤ 252) && strictlyIncreasing regs
+  | _ => false
+
 /-- the contract of `compress_flood_fill_regions` relative to the machine's chips (C12) -/
 def regionsOK (chips : List (Nat × Nat)) (targets : List (Nat × Nat × List Nat)) (regs : List (Nat × Nat)) : Bool :=
   strictlyIncreasing regs && (regs.all fun rm => decide (rm.2 < 262144)) &&
@@ -557,8 +568,9 @@ def handle (op : String) (j : Json) : R Json := do
   | "wellformed" =>
     -- oracle: the implementation's own requests of one fill (base-address reads removed)
     let reqs ← (← arr j "reqs").mapM reqOfJson
-    pure (Json.mkObj [("ok", Json.bool (wellFormedFill (← nat j "buf") (← nats j "image") (← nat j "app_id")
-      (← nat j "flags") (reqs.map decode)))])
+    let wf := wellFormedFill (← nat j "buf") (← nats j "image") (← nat j "app_id") (← nat j "flags") (reqs.map decode)
+    let same := isFillPkts (← nat j "buf") (← nats j "image") (← nat j "app_id") (← nat j "flags") (reqs.map decode)
+    pure (Json.mkObj [("ok", Json.bool (wf && same)), ("wf", Json.bool wf), ("same", Json.bool same)])
   | "regions_ok" =>
     let chips ← (← arr j "chips").mapM pairOfJson
     pure (Json.mkObj [("ok", Json.bool (regionsOK chips (← (← arr j "targets").mapM targetOfJson)
